@@ -1,5 +1,21 @@
 """Direction A generators: get behaviours out of TLC."""
+import json
+import os
+
 import tlc
+from realize import Table
+
+
+def tables_module(tabname, modname='CoreTables'):
+    """literal TLA+ module with the realisation table (see replay.tables_module for traces)"""
+    import replay
+    tab = Table.load(tabname)
+    doc = {'names': [{'id': n, 'iso': [ord(c) for c in m['iso']], 'rr': [ord(c) for c in m['rr']],
+                      'jol': [ord(c) for c in m['jol']], 'udf': [ord(c) for c in m['udf']]}
+                     for n, m in sorted(tab.names.items())],
+           'blobs': [{'id': b, 'len': len(tab.blobdata[b])} for b in sorted(tab.blobs)],
+           'targets': sorted(tab.targets)}
+    return replay.tables_module(doc).replace('MODULE TraceTables', 'MODULE ' + modname)
 
 MC_CORE_CFG = '''SPECIFICATION Spec
 CONSTANTS
@@ -27,7 +43,7 @@ CHECK_DEADLOCK FALSE
 '''
 
 
-def mc_core(params, dump='none', module='MC_core', workers=16, timeout=1800):
+def mc_core(params, dump='none', module='MC_core', workers=16, timeout=1800, table='core.names.json'):
     """dump: none | edges (transition tour, history hidden) | hist (all histories)"""
     p = dict(MaxEntries=3, MaxDepth=2, MaxLen=3, MaxRefuse=1, MaxSched=0, MaxGen=1, CfgIds='2',
              Modes='"lazy"', UseBlobs='"z","o"', InPlace='FALSE', Boot='FALSE')
@@ -41,13 +57,14 @@ def mc_core(params, dump='none', module='MC_core', workers=16, timeout=1800):
     else:
         extra += ['VIEW ViewNoHist']
     p['extra'] = '\n'.join(extra)
-    out, stats = tlc.run_tlc(module, MC_CORE_CFG % p, workers=workers, timeout=timeout)
+    out, stats = tlc.run_tlc(module, MC_CORE_CFG % p, workers=workers, timeout=timeout,
+                             aux_modules={'CoreTables': tables_module(table)})
     tlc.need_ok(out, stats, module)
     hists = [v for (tag, v) in tlc.tagged_lines(out) if tag == 'HIST']
     return hists, stats
 
 
-def simulate(params, num, seed, module='MC_core', workers=8, timeout=600):
+def simulate(params, num, seed, module='MC_core', workers=8, timeout=600, table='core.names.json'):
     """random behaviours of exactly MaxLen+1 calls (TLC -simulate), printed when complete."""
     p = dict(MaxEntries=4, MaxDepth=2, MaxLen=8, MaxRefuse=2, MaxSched=0, MaxGen=2, CfgIds='2',
              Modes='"lazy"', UseBlobs='"z","o"', InPlace='FALSE', Boot='FALSE')
@@ -56,7 +73,7 @@ def simulate(params, num, seed, module='MC_core', workers=8, timeout=600):
     p['extra'] = 'CONSTRAINT DumpFinal'
     per = max(1, num // workers)
     out, stats = tlc.run_tlc(module, MC_CORE_CFG % p, workers=workers, timeout=timeout,
-                             simulate='num=%d' % per,
+                             simulate='num=%d' % per, aux_modules={'CoreTables': tables_module(table)},
                              extra=['-depth', str(p['MaxLen'] + 2), '-seed', str(seed)])
     hists = [v for (tag, v) in tlc.tagged_lines(out) if tag == 'HIST']
     if stats.get('exit') not in (0,) and not hists:
